@@ -164,7 +164,8 @@ class patched:
         from term_image.renderable import _renderable as rmod
 
         self.saved = (utils.termios, utils.os, utils.select, rmod.termios)
-        tp = ModProxy(termios, self.s, {"tcgetattr", "tcsetattr", "tcdrain"}, "termios")
+        # (every function of the module is a boundary, whether the library uses it today or not)
+        tp = ModProxy(termios, self.s, {n for n in dir(termios) if n.startswith("tc") and callable(getattr(termios, n))}, "termios")
         utils.termios = tp
         utils.os = ModProxy(os, self.s, {"read", "write"}, "os")
         real_select = self.saved[2]
@@ -178,6 +179,8 @@ class patched:
         from .. import subjects
 
         subjects.on_finalize = lambda: s.call("finalizer.close", lambda: None)
+        global CURRENT
+        CURRENT = s
         return self
 
     def __exit__(self, *a):
@@ -189,6 +192,8 @@ class patched:
         from .. import subjects
 
         subjects.on_finalize = None
+        global CURRENT
+        CURRENT = None
 
 
 # ----------------------------------------------------------------------------- operations
@@ -198,6 +203,20 @@ class PredicateError(Exception):
     pass
 
 
+CURRENT = None  # the Sys of the operation under way
+
+
+def boundary(pred):
+    """The caller's predicate is code of the caller's: each of its invocations is a point
+    at which the operation may be interrupted, whenever the library chooses to invoke it."""
+
+    def wrapped(data):
+        s = CURRENT
+        return s.call("predicate", pred, data) if s is not None else pred(data)
+
+    return wrapped
+
+
 def make_ops(rnd, env):
     """-> list of (name, callable, needs_input bytes or None, expected exception or None)"""
     from term_image import utils
@@ -205,10 +224,10 @@ def make_ops(rnd, env):
     ops = []
 
     def q_da1():
-        return utils.query_terminal(b"\x1b[c", lambda s: not s.endswith(b"c"), 0.3)
+        return utils.query_terminal(b"\x1b[c", boundary(lambda s: not s.endswith(b"c")), 0.3)
 
     def q_noreply():
-        return utils.query_terminal(b"\x1b[5n", lambda s: True, 0.03)  # nobody answers: time-out
+        return utils.query_terminal(b"\x1b[5n", boundary(lambda s: True), 0.03)  # nobody answers: time-out
 
     def q_pred_raises():
         def more(s):
